@@ -41,6 +41,7 @@ Definition K_PEERDOWN : N := 2.
 Definition K_PEERUP : N := 3.
 Definition K_INIT : N := 4.
 Definition K_TERM : N := 5.
+Definition K_MIRROR : N := 6.  (* Route Mirroring (RFC 7854 4.7); the numbers are the RFC's type codes *)
 
 Record input := MkIn {
   in_kind : N;
@@ -51,7 +52,7 @@ Record input := MkIn {
   in_pph_asn : option N;        (* AS in the per-peer header, for BMP messages that have one *)
   in_peer_asn : N;              (* Provenance.peer_asn handed to the filter *)
   in_ingress : N;               (* the ingress id the call site attaches to output messages *)
-  in_legacy_as : bool }.        (* the UPDATE inside a BMP message uses 2-octet AS numbers in AS_PATH *)
+  in_legacy_as : bool }.        (* the UPDATE (inside a BMP message / of a BGP session) uses 2-octet AS numbers in AS_PATH *)
 
 (* which filter a program is: decides the receiver of the predicate methods *)
 Inductive fkind := FRib | FBgp | FBmp.
@@ -123,15 +124,19 @@ Definition lcomm_eqb (x y : N * N * N) : bool :=
 
 (* what the methods see of the attributes. A BMP filter re-parses the UPDATE
    with SessionConfig::modern() (4-octet AS numbers) whatever the peer uses;
+   at bgp-in the UPDATE was parsed by routecore's session (fsm/session.rs
+   Connection: session_config = SessionConfig::modern(), never updated from
+   the OPENs) - again 4-octet AS numbers whatever was negotiated.
    [legacy_blind] says whether an AS_PATH written with 2-octet AS numbers is
-   unreadable to it (true = the code as it is). *)
+   unreadable to them (true = the code as it is). The RIB unit's filter sees
+   the route as it was stored. *)
 Definition seen_hops (legacy_blind : bool) (k : fkind) (i : input) : list hop :=
   match in_attrs i with
   | None => []
   | Some a =>
       match k with
-      | FBmp => if in_legacy_as i && legacy_blind then [] else hops_of a
-      | _ => hops_of a
+      | FBmp | FBgp => if in_legacy_as i && legacy_blind then [] else hops_of a
+      | FRib => hops_of a
       end
   end.
 Definition seen_comms (i : input) : list N :=
@@ -239,3 +244,23 @@ Fixpoint out_calls (p : prog) : nat :=
   | PLet _ _ r => out_calls r
   | PIf _ th el r => out_calls th + out_calls el + out_calls r
   end%nat.
+
+(* ------------------------------------------------------------------ provenance-only scripts *)
+
+(* does a condition / a program read nothing of its input but the provenance
+   (prov.peer_asn())?  Such a filter is "about a peer", not about a message. *)
+Definition pred_prov_only (p : pred) : bool :=
+  match p with PPeerAsn _ => true | _ => false end.
+Fixpoint cond_prov_only (c : cond) : bool :=
+  match c with
+  | CTrue | CFalse => true
+  | CPred p => pred_prov_only p
+  | CNot c => cond_prov_only c
+  | CAnd a b | COr a b => cond_prov_only a && cond_prov_only b
+  end.
+Fixpoint prov_only (p : prog) : bool :=
+  match p with
+  | PEnd | PRet _ => true
+  | POut _ r | PLet _ _ r => prov_only r
+  | PIf c th el r => cond_prov_only c && prov_only th && prov_only el && prov_only r
+  end.
